@@ -17,14 +17,30 @@ package codecs
 
 // FromFMP4 builds codec objects of the client side: they are fresh and not yet shared
 //@ func FromFMP4
-//@   props C08 C13
+//@   props C08 C09 C13
 //@   role init
 //@   ensures result != nil ==> fresh(result)
+//@   ensures is(in, *fmp4.CodecH264) ==> (is(result, *H264) && result.(*H264).SPS == in.(*fmp4.CodecH264).SPS && result.(*H264).PPS == in.(*fmp4.CodecH264).PPS)
+//@   ensures is(in, *fmp4.CodecH265) ==> (is(result, *H265) && result.(*H265).VPS == in.(*fmp4.CodecH265).VPS && result.(*H265).SPS == in.(*fmp4.CodecH265).SPS && result.(*H265).PPS == in.(*fmp4.CodecH265).PPS)
+//@   ensures is(in, *fmp4.CodecAV1) ==> (is(result, *AV1) && result.(*AV1).SequenceHeader == in.(*fmp4.CodecAV1).SequenceHeader)
+//@   ensures is(in, *fmp4.CodecVP9) ==> (is(result, *VP9) && result.(*VP9).Width == in.(*fmp4.CodecVP9).Width && result.(*VP9).Height == in.(*fmp4.CodecVP9).Height
+//@        && result.(*VP9).Profile == in.(*fmp4.CodecVP9).Profile && result.(*VP9).BitDepth == in.(*fmp4.CodecVP9).BitDepth
+//@        && result.(*VP9).ChromaSubsampling == in.(*fmp4.CodecVP9).ChromaSubsampling && result.(*VP9).ColorRange == in.(*fmp4.CodecVP9).ColorRange)
+//@   ensures is(in, *fmp4.CodecOpus) ==> (is(result, *Opus) && result.(*Opus).ChannelCount == in.(*fmp4.CodecOpus).ChannelCount)
+//@   ensures is(in, *fmp4.CodecMPEG4Audio) ==> is(result, *MPEG4Audio)
 //@ end
 
 // ToFMP4 reads the parameters of a muxer track: called by the writer inside the critical section that
 // regenerates the init segment
 //@ func ToFMP4
-//@   props C08
+//@   props C08 C09
 //@   role writer
+//@   ensures is(in, *H264) ==> (is(result, *fmp4.CodecH264) && result.(*fmp4.CodecH264).SPS == in.(*H264).SPS && result.(*fmp4.CodecH264).PPS == in.(*H264).PPS)
+//@   ensures is(in, *H265) ==> (is(result, *fmp4.CodecH265) && result.(*fmp4.CodecH265).VPS == in.(*H265).VPS && result.(*fmp4.CodecH265).SPS == in.(*H265).SPS && result.(*fmp4.CodecH265).PPS == in.(*H265).PPS)
+//@   ensures is(in, *AV1) ==> (is(result, *fmp4.CodecAV1) && result.(*fmp4.CodecAV1).SequenceHeader == in.(*AV1).SequenceHeader)
+//@   ensures is(in, *VP9) ==> (is(result, *fmp4.CodecVP9) && result.(*fmp4.CodecVP9).Width == in.(*VP9).Width && result.(*fmp4.CodecVP9).Height == in.(*VP9).Height
+//@        && result.(*fmp4.CodecVP9).Profile == in.(*VP9).Profile && result.(*fmp4.CodecVP9).BitDepth == in.(*VP9).BitDepth
+//@        && result.(*fmp4.CodecVP9).ChromaSubsampling == in.(*VP9).ChromaSubsampling && result.(*fmp4.CodecVP9).ColorRange == in.(*VP9).ColorRange)
+//@   ensures is(in, *Opus) ==> (is(result, *fmp4.CodecOpus) && result.(*fmp4.CodecOpus).ChannelCount == in.(*Opus).ChannelCount)
+//@   ensures is(in, *MPEG4Audio) ==> is(result, *fmp4.CodecMPEG4Audio)
 //@ end
